@@ -72,7 +72,7 @@ PROPS = {
     },
     "C16": {
         "gens": [],
-        "lean_targets": ["Cql.Props.C16"],
+        "lean_targets": ["Cql.Props.C16", "Cql.Props.C16Close"],
         "harness_timeout": 5400,
         "trusted_base": COMMON_TRUST + [HARNESS,
             "Cql/Timer.lean: hand-written timed model of the request life-cycle in client/inflight.go (one timer per request, restarted on every "
@@ -84,8 +84,9 @@ PROPS = {
             "timers fire when due, before any later event (histories are generated with every deadline at least two time units away from any "
             "event, so that scheduling jitter cannot change the expected outcome)",
             "a positive read timeout",
-            "one event = one handler call (API-level atomicity); the interleaving of the internal steps of Close with concurrent senders is "
-            "explored by the fault-injection scenarios, not proved",
+            "one event = one handler call (API-level atomicity) in the timed model; Send racing with Close is covered separately at the "
+            "granularity of atomic steps under the read/write lock (Cql/CloseMicro.lean: every interleaving); the remaining steps of "
+            "Close (socket close, wait group, handler close) are explored by the fault-injection scenarios, not proved",
         ],
     },
     "C02": {
